@@ -13,6 +13,7 @@ import (
 	"io"
 	"runtime"
 	"strconv"
+	"strings"
 	"sync/atomic"
 	"time"
 
@@ -21,10 +22,13 @@ import (
 	"golang.org/x/net/html"
 )
 
-// chunkReader returns at most k bytes per Read (k <= 0: as many as fit).
+// chunkReader delivers the document in Reads whose sizes follow pat cyclically (0: as many as fit).
+// consumed counts the bytes delivered so far.
 type chunkReader struct {
-	rem []byte
-	k   int
+	rem      []byte
+	pat      []int
+	i        int
+	consumed int64
 }
 
 func (r *chunkReader) Read(p []byte) (int, error) {
@@ -32,12 +36,107 @@ func (r *chunkReader) Read(p []byte) (int, error) {
 		return 0, io.EOF
 	}
 	n := len(p)
-	if r.k > 0 && n > r.k {
-		n = r.k
+	if len(r.pat) > 0 {
+		k := r.pat[r.i%len(r.pat)]
+		r.i++
+		if k > 0 && n > k {
+			n = k
+		}
 	}
 	n = copy(p[:n], r.rem)
 	r.rem = r.rem[n:]
+	atomic.AddInt64(&r.consumed, int64(n))
 	return n, nil
+}
+
+// readSizes gives the caller's buffer sizes, cyclically.
+type readSizes struct {
+	pat []int
+	i   int
+}
+
+// buffer returns a buffer as large as the largest size of the pattern (allocated once per decode).
+func (s *readSizes) buffer() []byte {
+	m := 4096
+	for _, k := range s.pat {
+		if k > m {
+			m = k
+		}
+	}
+	return make([]byte, m)
+}
+
+func (s *readSizes) next() int {
+	if len(s.pat) == 0 {
+		return 4096
+	}
+	k := s.pat[s.i%len(s.pat)]
+	s.i++
+	if k < 1 {
+		k = 1
+	}
+	return k
+}
+
+// blockedWriters counts the goroutines parked in an io.Pipe Write (state "select", waiting for a
+// reader or for the read side to be closed). The driver itself never writes to a pipe: such a
+// goroutine belongs to a decoder.
+func blockedWriters() int {
+	buf := make([]byte, 1<<16)
+	for {
+		n := runtime.Stack(buf, true)
+		if n < len(buf) {
+			buf = buf[:n]
+			break
+		}
+		buf = make([]byte, 2*len(buf))
+	}
+	c := 0
+	for _, g := range strings.Split(string(buf), "\n\n") {
+		nl := strings.IndexByte(g, '\n')
+		if nl < 0 {
+			continue
+		}
+		if strings.Contains(g[:nl], "[select") && strings.Contains(g, "io.(*pipe).write") {
+			c++
+		}
+	}
+	return c
+}
+
+// settle waits until the goroutines started since the baseline was taken have returned ("done"), or one
+// of them is parked in a pipe Write that nobody will ever serve ("stuck"). No fixed sleeps: the state is
+// polled; the deadline (for a goroutine that neither returns nor parks) is generous.
+func settle(base, bw0 int) string {
+	deadline := time.Now().Add(30 * time.Second)
+	wait := 20 * time.Microsecond
+	seen := 0
+	for i := 0; i < 4; i++ {
+		if runtime.NumGoroutine() <= base {
+			return "done"
+		}
+		runtime.Gosched()
+	}
+	for {
+		if runtime.NumGoroutine() <= base {
+			return "done"
+		}
+		if blockedWriters() > bw0 {
+			seen++
+			if seen >= 2 {
+				return "stuck"
+			}
+		} else {
+			seen = 0
+		}
+		if time.Now().After(deadline) {
+			return "stuck"
+		}
+		time.Sleep(wait)
+		if wait < 5*time.Millisecond {
+			wait *= 2
+		}
+	}
 }
 
 func class(err error) string {
@@ -108,8 +207,14 @@ func encode1(p []byte, sizes []int) ([]byte, error) {
 	return out.Bytes(), nil
 }
 
-// decode reads everything from the armor decoder using read buffers of rbuf bytes.
-func decode(doc []byte, srcchunk, rbuf int) string {
+// decode reads everything from the armor decoder with read buffers of the given sizes. Result:
+// "ok x<data>" or "E:<class> x<data returned before the error>", then " g=0" when every goroutine the
+// decoder started has returned, " g=1" when one is left blocked.
+func decode(doc []byte, srcpat, rbufpat []int) string {
+	base, bw0 := runtime.NumGoroutine(), 0
+	if base > 2 {
+		bw0 = blockedWriters()
+	}
 	type res struct{ s string }
 	ch := make(chan res, 1)
 	go func() {
@@ -118,14 +223,16 @@ func decode(doc []byte, srcchunk, rbuf int) string {
 				ch <- res{"!panic " + fmt.Sprint(r)}
 			}
 		}()
-		dec, err := amp.NewArmorDecoder(&chunkReader{rem: doc, k: srcchunk})
+		dec, err := amp.NewArmorDecoder(&chunkReader{rem: doc, pat: srcpat})
 		if err != nil {
-			ch <- res{"E:" + class(err)}
+			ch <- res{"E:" + class(err) + " x"}
 			return
 		}
 		var data []byte
-		buf := make([]byte, rbuf)
+		sz := &readSizes{pat: rbufpat}
+		all := sz.buffer()
 		for {
+			buf := all[:sz.next()]
 			n, err := dec.Read(buf)
 			data = append(data, buf[:n]...)
 			if err == io.EOF {
@@ -133,17 +240,105 @@ func decode(doc []byte, srcchunk, rbuf int) string {
 				return
 			}
 			if err != nil {
-				ch <- res{"E:" + class(err)}
+				ch <- res{"E:" + class(err) + " x" + wire.Hex(data)}
 				return
 			}
 		}
 	}()
 	select {
 	case r := <-ch:
-		return r.s
+		if strings.HasPrefix(r.s, "!") {
+			return r.s
+		}
+		if settle(base, bw0) == "done" {
+			return r.s + " g=0"
+		}
+		return r.s + " g=1"
 	case <-time.After(20 * time.Second):
 		hung = true
 		return "!hang"
+	}
+}
+
+// ahead does at most nreads Reads, lets the decoder's goroutine run until it returns or parks in its
+// next Write, and reports how much of the source has been consumed by then.
+func ahead(doc []byte, srcpat, rbufpat []int, nreads int, need int64) string {
+	base, bw0 := runtime.NumGoroutine(), blockedWriters()
+	src := &chunkReader{rem: doc, pat: srcpat}
+	type res struct{ s string }
+	ch := make(chan res, 1)
+	go func() {
+		dec, err := amp.NewArmorDecoder(src)
+		if err != nil {
+			ch <- res{"x E:" + class(err)}
+			return
+		}
+		var data []byte
+		sz := &readSizes{pat: rbufpat}
+		all := sz.buffer()
+		end := "-"
+		for i := 0; i < nreads; i++ {
+			buf := all[:sz.next()]
+			n, err := dec.Read(buf)
+			data = append(data, buf[:n]...)
+			if err == io.EOF {
+				end = "eof"
+				break
+			}
+			if err != nil {
+				end = "E:" + class(err)
+				break
+			}
+		}
+		ch <- res{"x" + wire.Hex(data) + " " + end}
+	}()
+	select {
+	case r := <-ch:
+		settle(base, bw0)
+		c := atomic.LoadInt64(&src.consumed)
+		if need >= 0 {
+			// greedy source: the tokenizer asks for at most 64 KiB at a time
+			if c > need+3*65536 {
+				return r.s + " c=over:" + strconv.FormatInt(c, 10)
+			}
+			return r.s + " c=ok"
+		}
+		return r.s + " c=" + strconv.FormatInt(c, 10)
+	case <-time.After(20 * time.Second):
+		hung = true
+		return "!hang"
+	}
+}
+
+// tokens prints the token stream of html.Tokenizer with the armor decoder's buffer limit, in the
+// projection decodeToWriter sees (type, tag name, Text()).
+func tokens(doc []byte) string {
+	z := html.NewTokenizer(bytes.NewReader(doc))
+	z.SetMaxBuf(32 * 1024)
+	var out []string
+	for {
+		switch z.Next() {
+		case html.ErrorToken:
+			switch z.Err() {
+			case io.EOF:
+				out = append(out, "!eof")
+			case html.ErrBufferExceeded:
+				out = append(out, "!over")
+			default:
+				out = append(out, "!err")
+			}
+			return strings.Join(out, ",")
+		case html.TextToken:
+			out = append(out, "T"+wire.Hex(z.Text()))
+		case html.StartTagToken:
+			n, _ := z.TagName()
+			out = append(out, "S"+wire.Hex(n))
+		case html.EndTagToken:
+			n, _ := z.TagName()
+			out = append(out, "E"+wire.Hex(n))
+		default:
+			out = append(out, "O")
+		}
 	}
 }
 
@@ -167,9 +362,13 @@ func atoi(t string) int {
 	return n
 }
 
+// endlessReader: the given prefix, then a unit of filler repeated for ever. The unit ends with a pre element,
+// so a streaming decoder's goroutine parks in its next pipe Write soon after every delivered word: how much of
+// the source it has consumed by then is a stable quantity (no race with a producer that keeps running).
 type endlessReader struct {
 	prefix   []byte
-	filler   []byte
+	unit     []byte
+	off      int
 	consumed int64
 	stop     int32
 }
@@ -184,7 +383,9 @@ func (r *endlessReader) Read(b []byte) (int, error) {
 		r.prefix = r.prefix[n:]
 	} else {
 		for n < len(b) {
-			n += copy(b[n:], r.filler)
+			k := copy(b[n:], r.unit[r.off:])
+			n += k
+			r.off = (r.off + k) % len(r.unit)
 		}
 	}
 	atomic.AddInt64(&r.consumed, int64(n))
@@ -192,11 +393,13 @@ func (r *endlessReader) Read(b []byte) (int, error) {
 }
 
 func lazy(prefix []byte, fillKind int) string {
-	fill := []byte("<!-- filler --> \n")
+	line := "<!-- filler --> \n"
 	if fillKind == 1 {
-		fill = []byte("<p>text outside pre</p>\n")
+		line = "<p>text outside pre</p>\n"
 	}
-	src := &endlessReader{prefix: prefix, filler: fill}
+	unit := []byte(strings.Repeat(line, 64) + "<pre>QUJD</pre>\n")
+	src := &endlessReader{prefix: prefix, unit: unit}
+	base, bw0 := runtime.NumGoroutine(), blockedWriters()
 	type res struct {
 		n   int
 		err error
@@ -215,10 +418,12 @@ func lazy(prefix []byte, fillKind int) string {
 	var out string
 	select {
 	case r := <-ch:
+		settle(base, bw0)
 		c := atomic.LoadInt64(&src.consumed)
 		bucket := "small"
-		if c > 1<<20 {
-			bucket = "over-1MiB"
+		// the prefix, the filler up to the next word, and what the tokenizer reads in one go (at most 64 KiB)
+		if c > int64(len(prefix)+len(unit))+3*65536 {
+			bucket = "over:" + strconv.FormatInt(c, 10)
 		}
 		if r.err != nil && r.n == 0 {
 			out = "first=error consumed=" + bucket
@@ -242,19 +447,24 @@ func main() {
 			return "!badcase"
 		}
 		pi := 1
-		if a[0] == "dec" || a[0] == "mon" || a[0] == "lazy" {
-			// dec/mon <srcchunk> <rbuf> <doc> <hex>...
-			if len(a) < 4 {
-				return "!badcase"
-			}
+		switch a[0] {
+		case "dec", "dec0", "mon", "lazy":
+			// dec/mon <srcpat> <rbufpat> <doc> <hex>...
 			pi = 3
+		case "ahead", "aheadg":
+			pi = 4
+		case "tok", "strict":
+			pi = 1
+		}
+		if len(a) < pi+1 {
+			return "!badcase"
 		}
 		p, err := wire.Payload(a[pi])
 		if err != nil {
 			return "!badcase"
 		}
-		if pi == 3 {
-			for _, h := range a[4:] {
+		if pi >= 3 || a[0] == "tok" || a[0] == "strict" {
+			for _, h := range a[pi+1:] {
 				more, err := hex.DecodeString(h)
 				if err != nil {
 					return "!badcase"
@@ -289,8 +499,16 @@ func main() {
 				return "E:b64"
 			}
 			return "ok x" + wire.Hex(d)
-		case "dec":
-			return decode(p, atoi(a[1]), atoi(a[2]))
+		case "dec", "dec0":
+			return decode(p, ints(a[1]), ints(a[2]))
+		case "ahead":
+			return ahead(p, ints(a[1]), ints(a[2]), atoi(a[3]), -1)
+		case "aheadg":
+			return ahead(p, nil, ints(a[1]), atoi(a[2]), int64(atoi(a[3])))
+		case "tok":
+			return tokens(p)
+		case "unesc":
+			return wire.Hex([]byte(html.UnescapeString(string(p))))
 		case "rt":
 			o, err := encode(p, ints(a[2]))
 			if err == errHang {
@@ -299,7 +517,7 @@ func main() {
 			if err != nil {
 				return "E:write"
 			}
-			return decode(o, atoi(a[3]), atoi(a[4]))
+			return decode(o, ints(a[3]), ints(a[4]))
 		case "lazy":
 			// bounded buffering / no hang on an endless document: the source is the given prefix followed by
 			// filler that never ends; report how much of the source was consumed when the first decoded byte
@@ -309,7 +527,7 @@ func main() {
 			var m0, m1 runtime.MemStats
 			runtime.GC()
 			runtime.ReadMemStats(&m0)
-			r := decode(p, atoi(a[1]), atoi(a[2]))
+			r := decode(p, ints(a[1]), ints(a[2]))
 			runtime.ReadMemStats(&m1)
 			if r == "!hang" || (len(r) > 6 && r[:6] == "!panic") {
 				return r
